@@ -3,10 +3,12 @@ package harness
 import (
 	"bytes"
 	"fmt"
+	"reflect"
 	"verif/simrt"
 
 	"verif/pkg/prng"
 	"verif/pkg/refcodec"
+	"verif/pkg/reg"
 	"verif/pkg/schema"
 	"verif/pkg/simnet"
 	"verif/pkg/val"
@@ -692,6 +694,9 @@ func execMustAgree(n *Node, sc *Scenario) *Violation {
 		encs = append(encs, refcodec.Encode(b.Schema, tt, nv))
 	}
 	checked, must := t.New(), t.New()
+	var kept [2]reflect.Value
+	var keptTree [2]val.Value
+	var keptErr [2]error
 	// every decode gets a buffer of its own that stays alive and untouched (builds that
 	// share string memory alias them)
 	var keep [][]byte
@@ -709,6 +714,29 @@ func execMustAgree(n *Node, sc *Scenario) *Violation {
 		cr = safeCall(0, 0, func() { t.MustUnmarshal(must, b2) })
 		if v := callViolation(&cr, sc, b.Schema, "mustunmarshal"); v != nil {
 			return v
+		}
+		if i == 0 {
+			// the caller keeps what the first decode gave it (a plain assignment of the record)
+			for k, rec := range []reg.Record{checked, must} {
+				cp := reflect.New(reflect.ValueOf(rec).Elem().Type())
+				cp.Elem().Set(reflect.ValueOf(rec).Elem())
+				kept[k] = cp
+				keptTree[k], _, keptErr[k] = n.readBack(b, sc.Type, cp.Interface().(reg.Record))
+			}
+		}
+	}
+	// ... and it is still that after the receiver was decoded into again
+	for k, name := range []string{"UnmarshalBebop", "MustUnmarshalBebop"} {
+		if keptErr[k] != nil || !kept[k].IsValid() {
+			continue
+		}
+		now, _, err := n.readBack(b, sc.Type, kept[k].Interface().(reg.Record))
+		if err != nil {
+			continue
+		}
+		if d := val.Diff(b.Schema, tt, val.Canon(b.Schema, tt, keptTree[k]), val.Canon(b.Schema, tt, now)); d != "" {
+			return mismatch("kept-value-changed|"+name+"|"+kind+"|"+pathShape(d), fmt.Sprintf("a value decoded by %s and kept by the caller changed when the same receiver decoded the next valid encoding: %s", name, d),
+				map[string]string{"record_kind": kind, "path": pathShape(d), "op": name})
 		}
 	}
 	gc, _, err1 := n.readBack(b, sc.Type, checked)
